@@ -215,6 +215,7 @@ def run(ctx, res):
     exitv = bv.seq_bv("exit", 32)
     at_exit = bv.eq(pc_after, exitv)
     seen = {"ok_exit": 0, "back": 0, "err": 0, "paused": 0}
+    schemes = set()
     for o in outs:
         st = o.state
         care = Mx.AND(st.pc, pre)
@@ -265,7 +266,7 @@ def run(ctx, res):
             res.ob(not after)
             if after:
                 res.finding("error|%s|continues" % fk, "after %s failed the loop still performs %r" % (fk, after), witness(care))
-            if fk in ("exec", "try_interrupt"):
+            if fk == "exec" or (fk == "try_interrupt" and "exec" not in kinds):
                 ssv = vis["state_sum"]
                 same = isinstance(ssv, Int) and Mx.AND(care, Mx.NOT(bv.eq(ssv.bits, sum0))) == 0
                 res.ob(same)
@@ -284,8 +285,18 @@ def run(ctx, res):
         exp_cross = Mx.AND(care, crossing)
         has_sync = "sync" in kinds
         expect = ["try_interrupt", "fetch", "exec"] + (["sync"] if has_sync else []) + ["modules"]
-        res.ob(kinds == expect)
-        if kinds != expect:
+        # the rotated loop (boundary poll at the end of the iteration, AFTER the exit test) is the same sequence of phases: accepted
+        # when the back-edge iteration ends with the poll and the iteration that returns Ok at the exit address does not poll
+        rot = expect[1:] + (["try_interrupt"] if o.kind == "stop" else [])
+        if kinds == rot and kinds != expect:
+            schemes.add("rotated")
+            kinds_ok = True
+        else:
+            kinds_ok = kinds == expect
+            if kinds_ok:
+                schemes.add("poll-first")
+        res.ob(kinds_ok)
+        if not kinds_ok:
             res.finding("iteration|effects", "iteration performs %r, expected %r" % (kinds, expect), witness(care))
             continue
         res.ob(Mx.AND(care, paused) == 0)
@@ -344,6 +355,10 @@ def run(ctx, res):
             res.errors.append("unexpected outcome %s" % o.kind)
         if len(res.samples) < 6:
             res.samples.append({"outcome": o.kind, "effects": kinds, "tags": list(st.tags)})
+    res.ob(len(schemes) <= 1)
+    if len(schemes) > 1:
+        res.finding("iteration|mixed-order", "some iterations poll for interrupts before the instruction and others after it")
+    res.inventory["iteration_scheme"] = sorted(schemes)
     for k in ("ok_exit", "back", "err", "paused"):
         res.ob(seen[k] != 0)
         if seen[k] == 0:
